@@ -93,3 +93,11 @@ chk("C14", "exploration", "contract monitor over four logged workloads (historie
     "the JWK fault matrix and the typed-map sequences (2.7e5 calls quick). The evidence lists which jwt_write_error messages "
     "of the source were observed and which were not, so unreached failure causes are visible.",
     "Allocation-failure causes are C17's. Causes not in the four workloads are listed as unobserved messages.", "DESIGN.md 3/C14")
+chk("C12", "exploration", "dual-provider differential monitoring of the mutation workload + selector/environment/portability probes, under ASan/UBSan",
+    "Every token of the C01 mutation workload (23 classes x every key/alg x three signers: harness, libjwt/OpenSSL, libjwt/GnuTLS) "
+    "is verified under both providers in the same process and the verdict pair is judged (agreement on RFC-signed and on invalid "
+    "tokens, each provider accepts the other's signatures, byte-identical tokens for HS*/RS*/EdDSA); jwt_set_crypto_ops(_t) is "
+    "called with 22 names and ids -2..7 from both starting providers; 13 JWT_CRYPTO values are observed in child processes; "
+    "7 key types are loaded under one provider and used and freed under the other (4 combinations each).",
+    "Excluded middle (valid but non-canonical tokens) is counted, not judged. secp256k1 is outside the common matrix. Two open "
+    "known findings (Ed448 last byte on GnuTLS).", "DESIGN.md 3/C12")
